@@ -20,6 +20,8 @@ def run(ctx):
     scs += [scen.pair_in_one_message(r2) for _ in range(30 if quick else 1000)]
     rll = random.Random(ctx.seed * 7919 + 111)     # a stream of its own
     scs += [scen.link_local_twins(rll) for _ in range(30 if quick else 1000)]
+    rwi = random.Random(ctx.seed * 7919 + 211)     # a stream of its own
+    scs += [scen.wildcard_instance(rwi) for _ in range(30 if quick else 1000)]
     stackprop.run_scenarios(ctx, scs, 3011, CODES, what="subscribe acknowledgements")
 
 
